@@ -154,6 +154,16 @@ def make_bilinear(W, rng):
         t = bterm()
         expr = expr + integral(rng.choice(W.faces), t)
         sym_b = 'grad' not in str(t).lower()
+    if shape == 'scalar' and len(W.faces) >= 2 and rng.random() < 0.12:
+        # asymmetric parts on DIFFERENT regions that would cancel if the integrands of all regions were added
+        # (seeded change C10-6 compared the summed integrands): the form is not symmetric
+        d0 = W.D1[0]
+        fa, fb = rng.sample(list(W.faces), 2)
+        if rng.random() < 0.5:
+            expr = expr + integral(fa, W.u * d0(W.v)) + integral(fb, W.v * d0(W.u))
+        else:
+            expr = integral(W.domain, body + d0(W.u) * W.v) + integral(fa, W.u * d0(W.v))
+        expected, sym_b = False, False
     args = (tr[0], te[0]) if len(tr) == 1 and rng.random() < 0.5 else (tuple(tr), tuple(te))
     a = m['BilinearForm'](args, expr)
     return a, tr, te, (expected and sym_b)
@@ -484,6 +494,20 @@ def oracle(ctx, factor, seeds):
         bad = check_call(o, W, a, [W.u], [W.v], pos, kw, label, True, m)
         if bad:
             o.fail(key, what + ': ' + bad[1], **bad[2])
+        else:
+            o.count('fixed-corpus:' + key)
+
+    # asymmetric parts on different regions (they would cancel if all integrands were added): not symmetric
+    d0 = W.D1[0]
+    for key, expr in (
+            ('corpus:symmetric-cross-region:two-faces', m['integral'](W.domain, m['dot'](m['grad'](W.u), m['grad'](W.v)))
+             + m['integral'](W.faces[0], W.u * d0(W.v)) + m['integral'](W.faces[1], W.v * d0(W.u))),
+            ('corpus:symmetric-cross-region:domain-face', m['integral'](W.domain, d0(W.u) * W.v) + m['integral'](W.faces[1], W.u * d0(W.v)))):
+        o.evaluations += 1
+        a2 = m['BilinearForm']((W.u, W.v), expr)
+        fl = call(lambda: a2.is_symmetric)
+        if fl[0] != 'ok' or fl[1]:
+            o.fail(key, 'is_symmetric of %s is %s; the form is not symmetric (its asymmetric parts are on different regions)' % (str(a2.expr)[:200], fl[1]))
         else:
             o.count('fixed-corpus:' + key)
 
